@@ -30,12 +30,29 @@ Record lstate := {
 Definition init_state : lstate :=
   {| skip := false; skipCount := 0%Z; skipClosing := false; stack := []; recent := [] |}.
 
-(* a write: checked = the code inspects the error of this WriteString *)
+(* what the loop emits, one item per WriteString call *)
+Inductive item :=
+| ISpace                       (* the blank of AddSpaceWhenStrippingTag *)
+| ITag (t : token)             (* a kept start / end / self-closing tag: token.String() *)
+| IText (d : bytes)            (* a text token, written escaped *)
+| IRawText (d : bytes)         (* script / style text under AllowUnsafe: token.Data as is *)
+| IComment (d : bytes).        (* a kept comment *)
+Definition render_item (it : item) : bytes :=
+  match it with
+  | ISpace => [32]
+  | ITag t => render1 t
+  | IText d => escape d
+  | IRawText d => d
+  | IComment d => render1 (TComment d)
+  end.
+
+(* a write: checked = the code inspects the error of this WriteString (all of them do) *)
 Record chunk := { checked : bool; data : bytes }.
 Definition wr (d : bytes) : chunk := {| checked := true; data := d |}.
+Definition chunk_of (it : item) : chunk := wr (render_item it).
 
 Inductive step_out :=
-| Ok (st : lstate) (out : list chunk)
+| Ok (st : lstate) (out : list item)
 | Panic.                        (* index out of range on closingTagToSkipStack *)
 
 Section Loop.
@@ -43,7 +60,7 @@ Section Loop.
   Variable I : interp M U R.
   Variable p : policy M U R.
 
-  Definition space_if_adding : list chunk := if addSpaces p then [wr [32]] else [].
+  Definition space_if_adding : list item := if addSpaces p then [ISpace] else [].
 
   (* the element's attribute policies: explicit entry, else merged pattern entries *)
   Definition element_policies (n : bytes) : option (amap (list (attr_policy M))) :=
@@ -59,7 +76,7 @@ Section Loop.
     {| skip := skip st; skipCount := skipCount st; skipClosing := skipClosing st; stack := stack st; recent := r |}.
 
   (* a start tag that is kept: counted when it is nested in a dropped element of the same name *)
-  Definition kept_start (st : lstate) (n : bytes) (c : chunk) : step_out :=
+  Definition kept_start (st : lstate) (n : bytes) (c : item) : step_out :=
     let out := if skip st then [] else [c] in
     if skipClosing st && negb (is_void n) then
       match stack st with
@@ -75,7 +92,7 @@ Section Loop.
   (* the part of the EndTagToken case after the skip-stack test *)
   Definition end_tail (st : lstate) (n : bytes) : step_out :=
     match lookup n (elsAndAttrs p) with
-    | Some _ => Ok st (if skip st then [] else [wr (render1 (TEnd n))])
+    | Some _ => Ok st (if skip st then [] else [ITag (TEnd n)])
     | None =>
       let matched := existsb (fun e => mmatch I (snd (fst e)) n) (elsMatchingAndAttrs p) in
       let '(cnt, skip2) :=
@@ -83,15 +100,15 @@ Section Loop.
         then ((skipCount st - 1)%Z, if Z.eqb (skipCount st - 1) 0 then false else skip st)
         else (skipCount st, skip st) in
       let st' := {| skip := skip2; skipCount := cnt; skipClosing := skipClosing st; stack := stack st; recent := recent st |} in
-      if matched then Ok st' (if skip2 then [] else [wr (render1 (TEnd n))])
+      if matched then Ok st' (if skip2 then [] else [ITag (TEnd n)])
       else Ok st' space_if_adding
     end.
 
   Definition step (st : lstate) (t : token) : step_out :=
     match t with
     | TDoctype _ => Ok st []
-    | TComment _ =>
-      if allowComments p && negb (skip st) then Ok st [wr (render1 t)] else Ok st []
+    | TComment d =>
+      if allowComments p && negb (skip st) then Ok st [IComment d] else Ok st []
     | TStart n a =>
       let st := set_recent st (normalise n) in
       if is_script_or_style n && negb (allowUnsafe p) then Ok st [] else
@@ -108,7 +125,7 @@ Section Loop.
           Ok (if is_void n then st
               else {| skip := skip st; skipCount := skipCount st; skipClosing := true; stack := (n, O) :: stack st; recent := recent st |})
              space_if_adding
-        else kept_start st n (wr (render1 (TStart n a')))
+        else kept_start st n (ITag (TStart n a'))
       end
     | TEnd n =>
       let st := if beqb (recent st) (normalise n) then set_recent st [] else st in
@@ -141,19 +158,19 @@ Section Loop.
         match a' with
         | [] =>
           if negb (allow_no_attrs I p n) then Ok st space_if_adding
-          else Ok st (if skip st then [] else [wr (render1 (TSelf n a'))])
-        | _ => Ok st (if skip st then [] else [wr (render1 (TSelf n a'))])
+          else Ok st (if skip st then [] else [ITag (TSelf n a')])
+        | _ => Ok st (if skip st then [] else [ITag (TSelf n a')])
         end
       end
     | TText d =>
       if skip st then Ok st [] else
       if beqb (recent st) script_name || beqb (recent st) style_name then
-        Ok st (if allowUnsafe p then [wr d] else [])
-      else Ok st [wr (render1 t)]
+        Ok st (if allowUnsafe p then [IRawText d] else [])
+      else Ok st [IText d]
     end.
 
-  (* all chunks of a fault-free run; the flag tells whether the run ended in a panic *)
-  Fixpoint run_from (st : lstate) (ts : list token) : list chunk * bool :=
+  (* all items of a fault-free run; the flag tells whether the run ended in a panic *)
+  Fixpoint run_from (st : lstate) (ts : list token) : list item * bool :=
     match ts with
     | [] => ([], false)
     | t :: ts' =>
@@ -162,8 +179,11 @@ Section Loop.
       | Ok st' out => let (rest, pn) := run_from st' ts' in (out ++ rest, pn)
       end
     end.
-  Definition run (ts : list token) : list chunk * bool := run_from init_state ts.
+  Definition run_items (ts : list token) : list item * bool := run_from init_state ts.
+  Definition emitted (ts : list token) : list item := fst (run_items ts).
+  Definition run (ts : list token) : list chunk * bool :=
+    let (its, pn) := run_items ts in (map chunk_of its, pn).
 
-  Definition sanitize_tokens (ts : list token) : bytes := concat (map data (fst (run ts))).
+  Definition sanitize_tokens (ts : list token) : bytes := concat (map render_item (emitted ts)).
   Definition sanitize_bytes (s : bytes) : bytes := sanitize_tokens (tokenize s).
 End Loop.
